@@ -84,6 +84,8 @@ def run(ctx):
         chosen += rest[:1200]
     for i, x in enumerate(chosen):
         x["case"] = dict(x["case"])
+        if i % 3 != 1:
+            x["case"]["offer"] = True       # the client offers the session-ticket extension (independent of the server's setting)
         if x["expect"]["result"] == "complete" and (i % (7 if not thorough else 23) == 0):
             x["case"]["data"] = True
     casef = os.path.join(ctx.work, "cases.ndjson")
@@ -107,6 +109,34 @@ def run(ctx):
         else:
             ok += 1
     ctx.log("configurations conforming: %d / %d (%d with 260 kB of application data)" % (ok, len(chosen), nd))
+    # message level: the flights the interposer saw, checked by TLC against TLCPFlight
+    d = ctx.tladir()
+    fobs = []
+    for x, o in zip(chosen, obs):
+        c, g = x["case"], o["got"]
+        if x["expect"]["result"] == "fail" and x["expect"]["why"] == "mode":
+            continue            # GMSSL client against a TLS-only server or the reverse: no common protocol to speak of
+        proto = "gm" if c["ckind"] == "gm" else "tls"
+        complete = bool(g["Cli"]["complete"] and g["Srv"]["complete"])
+        suite = g["Cli"]["suite"] if complete else ""
+        fobs.append({"proto": proto, "suite": suite, "auth": c["auth"], "ccert": c["ccert"], "tickets": bool(c["tickets"]) and bool(c.get("offer")), "complete": complete,
+                     "flight": g.get("flight") or [], "case": json.dumps(c, sort_keys=True)})
+    write_ndjson(os.path.join(d, "flights.ndjson"), fobs)
+    with open(os.path.join(d, "flight.cfg"), "w") as f:
+        f.write('SPECIFICATION Spec\nCONSTANTS\n ObsFile = "flights.ndjson"\n')
+    fr = ctx.tlc("TLCPFlight", "flight.cfg", workers=4, timeout=1500)
+    verdicts = {v["i"]: v for v in markers(fr["out"], "FLIGHT")}
+    if len(verdicts) != len(fobs):
+        raise Infra("TLCPFlight: %d verdicts for %d handshakes" % (len(verdicts), len(fobs)))
+    fok = 0
+    for i, fo in enumerate(fobs, 1):
+        if verdicts[i]["ok"]:
+            fok += 1
+        else:
+            ctx.violation("configuration %s: the handshake messages on the wire %s are not the flights GM/T 0024 / TLS order for it%s"
+                          % (fo["case"], " ".join(fo["flight"]), (" (" + " ".join(verdicts[i]["expected"]) + ")") if verdicts[i]["expected"] else ""),
+                          {"handshake": fo, "expected": verdicts[i]["expected"]})
+    ctx.log("handshake flights conforming to TLCPFlight: %d / %d (%d completed)" % (fok, len(fobs), sum(1 for x in fobs if x["complete"])))
     # independent TLS 1.0-1.2 implementation: crypto/tls of the Go standard library as the peer
     icf = os.path.join(ctx.work, "interop.ndjson")
     iof = os.path.join(ctx.work, "interop.obs.ndjson")
